@@ -20,7 +20,9 @@ func Retrieve(jsonPath string, src interface{}, config ...Config) ([]interface{}
 
 // Parse returns the parser function using the given JSONPath.
 func Parse(jsonPath string, config ...Config) (f func(src interface{}) ([]interface{}, error), err error) {
+	verifHook(1, nil)
 	parseMutex.Lock()
+	verifHook(2, nil)
 	defer func() {
 		if exception := recover(); exception != nil {
 			if _err, ok := exception.(error); ok {
@@ -28,6 +30,7 @@ func Parse(jsonPath string, config ...Config) (f func(src interface{}) ([]interf
 			}
 		}
 		parser.jsonPathParser = jsonPathParser{}
+		verifHook(3, nil)
 		parseMutex.Unlock()
 	}()
 
@@ -52,7 +55,10 @@ func Parse(jsonPath string, config ...Config) (f func(src interface{}) ([]interf
 
 	root := parser.jsonPathParser.root
 	return func(src interface{}) ([]interface{}, error) {
+		verifHook(4, nil)
+		defer verifHook(5, nil)
 		container := getContainer()
+		verifHook(6, container)
 		defer func() {
 			putContainer(container)
 		}()
